@@ -87,8 +87,9 @@ def run(ctx):
     # paired pop/restore instances + exemptions are listed
     for fid, fa in sorted(S.sites.items()):
         for st, s2, var, key in fa.paired:
-            ctx.inst('R13.1', fid, '%s ... %s' % (repo.norm(st), repo.norm(s2)), True,
-                     'temporary removal restored in the same block with only deepcopy(%s) in between (key order is not restored)' % var, st)
+            ctx.inst('R13.1', fid, '%s ... %s' % (repo.norm(st), repo.norm(s2)), False,
+                     'the key is removed from the caller\'s %s and put back: it moves to the END of the mapping, so the argument no longer serialises to the same JSON '
+                     '(and another thread sees the mapping without the key in between)' % var, st)
     for (fid, p), why in sorted(EXEMPT.items()):
         repo.func(fid)
         ctx.inst('R13.1', fid, 'parameter %s (frozen exemption)' % p, True, why, repo.functions[fid], nontrivial=False)
@@ -146,3 +147,7 @@ def run(ctx):
                 if root in DOC_PARAM_NAMES and _is_access_path(st.value.args[0] if isinstance(st.value, ast.Call) and st.value.args else st.value):
                     ctx.inst('R13.2', fid, key_of(fid, '%s  [from %s]' % (repo.norm(st), root)), False,
                              'returns a shallow copy: the entries of the decision\'s diff are shared with the applied diff', st)
+
+
+from .extra import with_extra  # noqa: E402
+run = with_extra('C13', run)
